@@ -15,6 +15,11 @@ func runC11(e *env) {
 		"then seeded synthesised modules; one evaluation = one module: the union table of the walk and every struct node reachable in the analysis result; non-trivial = at least one union with >= 2 members or a member of >= 2 unions"
 	e.m.Extra = map[string]interface{}{"mismatch_means": "model"}
 	specs := append(corpusUnions(), repoFixtures("repo-testsource-defs", "repo-testsource-other")...)
+	// the analysed package lies two levels below the module root and uses unions declared in the root package, whose path
+	// is exactly the prefix the package selector is built from
+	specs = append(specs, &modSpec{Name: "union-in-the-module-root-used-from-a-sub-package", ModPath: "example.com/demo", Target: "api/api.go",
+		Files: []modFile{{"api/api.go", "package api\n\nimport \"example.com/demo\"\n\ntype Drawing struct {\n\tMain demo.Shape\n\tTitle demo.Named\n\tK demo.Kind\n}\n"},
+			{"shapes.go", "package demo\n\ntype Shape interface{ isShape() }\n\ntype Named interface{ name() string }\n\ntype Circle struct{ R int }\n\ntype Square struct{ S int }\n\nfunc (Circle) isShape()     {}\nfunc (Square) isShape()     {}\nfunc (Circle) name() string { return \"circle\" }\n\ntype Kind int\n\nconst (\n\tK0 Kind = iota\n\tK1\n)\n"}}})
 	n := 20
 	if e.thorough() {
 		n = 300
